@@ -16,10 +16,18 @@ for pid, sp in sorted(props.PROPS.items()):
         'evidence_file': 'evidence/%s.json' % pid,
         'replay_cmd_template': './check %s --replay {path}' % pid,
         'engine': 'pyvc+bounded' if sp['obligations'] else 'bounded',
-        'level_claimed': {'category': sp['level'], 'text': LEVEL_TEXT[sp['level']] + sp.get('level_text', ''),
-                          'design_ref': 'DESIGN.md section 4, ' + pid},
+        'level_claimed': {'category': sp['level'],
+                          'text': LEVEL_TEXT[sp['level']] + 'For this property: ' + (sp.get('explanation') or '')
+                                  + sp.get('level_text', ''),
+                          'design_ref': 'DESIGN.md section 0.3 (as built) and section 4, ' + pid},
         'level_note': sp.get('level_note') or 'Trusted: CPython built-ins and re/json (T1-T6), the SMT solvers and the VC generator (T12); bounded clauses hold only up to the bound. See evidence trusted_base/assumptions.',
-        'technique': sp.get('technique') or ('contract-based deductive verification (VCs from the real AST, z3/cvc5) + bounded stand-in' if sp['obligations'] else 'bounded stand-in of sidecar contracts (deductive obligations not yet attached)'),
+        'technique': sp.get('technique') or (
+            'contract-based deductive verification of the real code: sidecar contracts on %d functions / lemmas / regex fact '
+            'groups, verification conditions generated from the real AST on every run (vlib/pyvc) and discharged by '
+            'z3 5.1 / cvc5 / z3 4.8; the same contracts executed natively on the real functions (contract sweep, bounded); '
+            'bounded stand-in (executable spec vs. real code up to a stated bound) for the clauses outside deductive reach'
+            % len(sp['obligations']) if sp['obligations'] else
+            'bounded stand-in of sidecar contracts (deductive obligations not yet attached)'),
     })
 m = {
  'version': 1,
@@ -31,7 +39,9 @@ m = {
    {'name': 'pyvc', 'path': 'vlib/pyvc', 'serves_properties': sorted(p for p, sp in props.PROPS.items() if sp['obligations']),
     'kind_free_text': 'verification-condition generator over the real penman AST (re-read from /repo on every run) with sidecar contracts; obligations discharged by z3 5.1 / cvc5 / z3 4.8'},
    {'name': 'bounded', 'path': 'vlib/bounded', 'serves_properties': sorted(props.PROPS),
-    'kind_free_text': 'bounded stand-in: executable specs and contracts evaluated on the real functions for all inputs up to a stated bound + seeded random cases (never counted as proved)'}],
+    'kind_free_text': 'bounded stand-in: executable specs and contracts evaluated on the real functions for all inputs up to a stated bound + seeded random cases (never counted as proved)'},
+   {'name': 'sweep', 'path': 'vlib/pyvc/sweep.py', 'serves_properties': sorted(p for p, sp in props.PROPS.items() if sp['obligations']),
+    'kind_free_text': 'native contract sweep: every sidecar contract executed on the real function with generated arguments (dynamic cross-check of contracts and verifier, falsifier for undecided obligations; bounded, never counted as proved)'}],
  'checks': checks,
  'not_applicable': [],
  'notes': 'Exit codes of ./check: 0 held, 1 violation (VIOLATION line), 2 undecided (solver unknown/timeout or code left the verified subset; never reported as a violation), 3 internal error. known_findings.json lists recorded and repaired findings.',
